@@ -10,3 +10,29 @@ import SynKitProofs.Props.C13
 #print axioms SynKit.Cluster.incremental_perm_invariant
 #print axioms SynKit.Cluster.batched_eq_oneshot
 #print axioms SynKit.Cluster.C13.full
+-- relativised to a carrier predicate
+#print axioms SynKit.Cluster.same_class_iff_on
+#print axioms SynKit.Cluster.cluster_perm_invariant_on
+#print axioms SynKit.Cluster.libCheck_joins_representative_on
+#print axioms SynKit.Cluster.cluster_with_templates_spec_on
+#print axioms SynKit.Cluster.incremental_same_class_iff_oneshot
+#print axioms SynKit.Cluster.incremental_perm_invariant_on
+-- instantiated with the real isomorphism (element, charge, bond order)
+#print axioms SynKit.Cluster.clIso_equiv_wf
+#print axioms SynKit.Cluster.same_class_iff_iso
+#print axioms SynKit.Cluster.cluster_perm_invariant_iso
+#print axioms SynKit.Cluster.libCheck_spec_iso
+#print axioms SynKit.Cluster.libCheck_joins_representative_iso
+#print axioms SynKit.Cluster.cluster_with_templates_spec_iso
+#print axioms SynKit.Cluster.incremental_perm_invariant_iso
+#print axioms SynKit.Cluster.relabel_same_class_iso
+#print axioms SynKit.Cluster.libCheck_relabel_joins_iso
+#print axioms SynKit.Cluster.C13.full_iso
+-- helper facts the instantiation rests on (SynKitProofs/ClusterIso.lean)
+#print axioms SynKit.Cluster.clIso_iff
+#print axioms SynKit.Cluster.clIso_equivOn
+#print axioms SynKit.Cluster.nodeOk_norm_iff
+#print axioms SynKit.Cluster.edgeOk_norm_iff
+#print axioms SynKit.Cluster.get_withDefault
+#print axioms SynKit.Cluster.clIso_relabel_left
+#print axioms SynKit.Cluster.clIso_relabel_right
